@@ -357,9 +357,13 @@ class NPFacade(types.ModuleType):
         return r
 
     @staticmethod
-    def abs(x):
-        return _map(abs, x) if (isinstance(x, _np.ndarray) and x.dtype == object) or isinstance(x, (
+    def abs(x, out=None):
+        r = _map(abs, x) if (isinstance(x, _np.ndarray) and x.dtype == object) or isinstance(x, (
             list, tuple)) and _has_sym(x) else (abs(x) if is_sym(x) else _np.abs(x))
+        if out is not None:  # numpy's in-place form np.abs(a, out=a)
+            out[...] = r
+            return out
+        return r
 
     absolute = abs
     fabs = abs
